@@ -1,7 +1,8 @@
 (* C03 — Requested tasks and their transitive dependencies run once, dependencies first.
    Statements + `exact` + Print Assumptions only.  `pick` is Go's unspecified map/set iteration order inside
    dag.Sort: the theorems hold for every pick that returns a permutation of what it is given. *)
-From Spok Require Import Base Graph GraphProofs.
+From Spok Require Import Base Graph GraphProofs Lexer Parser Vars Load LoadProofs.
+Close Scope N_scope.
 From Coq Require Import Permutation.
 
 (* If spok computes a run order at all, it is one C03 allows: every task reachable from the request through
@@ -34,6 +35,13 @@ Theorem C03_checker : forall ds sel o, valid_order ds sel o = true <->
   (forall t, In t o -> exists deps, lookup ds t = Some deps /\ forall d, In d deps -> before o d t = true).
 Proof. exact valid_order_spec. Qed.
 Print Assumptions C03_checker.
+
+(* what the graph is built from: a name in a dependency list is a dependency on the task of that name - whatever variables
+   exist, whatever they are called (task.New) *)
+Theorem C03_names_are_tasks : forall root vs doc name deps outs cmds t n,
+  load_task root vs doc name deps outs cmds = Some t -> In (AIdent n) deps -> In n (lt_taskdeps t).
+Proof. exact ident_is_task_dependency. Qed.
+Print Assumptions C03_names_are_tasks.
 
 (* non-vacuity: c(b) b(a) a() d(): request c under a reversing iteration order; x(y) y(x) is a cycle *)
 Example C03_nonvacuous :
